@@ -26,8 +26,11 @@ EXTENDS Integers, FiniteSets, TLC
 CONSTANTS NTokens,      \* call tokens 1..NTokens
           Levels        \* magnitude levels (positive integers < 2^31)
 
-Carriers == {"int8", "uint8", "int16", "uint16", "int32", "uint32", "int64", "uint64", "list", "float32"}
-Profiles == {"signed", "offset"}
+IntCarriers == {"int8", "uint8", "int16", "uint16", "int32", "uint32", "int64", "uint64", "list", "float32"}
+\* the same double precision samples in another memory layout / wrapper (no range restriction; profile "real": non-integer values)
+Layouts == {"readonly", "big-endian", "negative-stride", "column-of-2d", "longdouble", "list-float", "masked"}
+Carriers == IntCarriers \cup Layouts
+Profiles == {"signed", "offset", "real"}
 
 Big == 2147483647       \* everything wider than 32 bits: unbounded as far as Levels go
 
@@ -40,8 +43,10 @@ Hi(c) == CASE c = "int8" -> 127 [] c = "uint8" -> 255 [] c = "int16" -> 32767 []
            [] OTHER -> Big
 
 \* every sample of the record is exactly representable in the carrier
-Admissible(c, L, p) == /\ L <= Hi(c)
-                       /\ p = "signed" => -L >= Lo(c)
+Admissible(c, L, p) == IF c \in Layouts THEN p = "real" /\ L = 100
+                       ELSE /\ p # "real"
+                            /\ L <= Hi(c)
+                            /\ p = "signed" => -L >= Lo(c)
 
 \* the largest admissible level of a carrier/profile: where wrap-around shows first
 Maximal(c, L, p) == Admissible(c, L, p) /\ \A M \in Levels : Admissible(c, M, p) => M <= L
@@ -62,7 +67,7 @@ CONSTANT Promote
 
 Narrow == {"int8", "uint8", "int16"}
 Wrap(v, c) == LET m == Hi(c) - Lo(c) + 1 IN ((v - Lo(c)) % m) + Lo(c)
-Pair(L, p) == IF p = "signed" THEN <<L, -(L \div 2)>> ELSE <<L, L \div 2>>
+Pair(L, p) == IF p # "offset" THEN <<L, -(L \div 2)>> ELSE <<L, L \div 2>>
 ExactEnergy(L, p) == Pair(L, p)[1] * Pair(L, p)[1] + Pair(L, p)[2] * Pair(L, p)[2]
 MechEnergy(c, L, p) ==
     IF Promote \/ c \notin Narrow THEN ExactEnergy(L, p)
